@@ -185,7 +185,7 @@ func convertSchema(s string, t *VirtualTable) error {
 		if i > 0 {
 			s += ", "
 		}
-		s += c.Name
+		s += quoteName(c.Name)
 		if c.DefaultType != "" {
 			s += " " + c.DefaultType
 		}
@@ -215,6 +215,13 @@ func convertSchema(s string, t *VirtualTable) error {
 		t.ColumnNameByIndex[i] = col.Name
 	}
 	return nil
+}
+
+// quoteName writes a column name as a quoted SQL identifier: the declaration is
+// parsed again by SQLite, where a name with a space, or a reserved word, is
+// only a name with its quotes.
+func quoteName(name string) string {
+	return `"` + strings.ReplaceAll(name, `"`, `""`) + `"`
 }
 
 func parseSchema(a string) (*sqlTypes.Schema, error) {
